@@ -107,7 +107,7 @@ def publishes(F, node, lab):
 
 @rule('C01.R1', 'finish: status write -> flush -> fsync of the data file '
       'before the index, the end position and the last tid are published',
-      props=['C04'], min_instances=1)
+      props=['C04', 'C09'], min_instances=1)
 def r1(R):
     cls = R.prog.cls(FS)
     f = R.method(cls, 'tpc_finish')
